@@ -39,6 +39,19 @@ def pick(i):
     return "2025-06-18\n"
 
 
+def version_text(i):
+    # ways a server words its rejection of the protocol version (code -32602)
+    if i == 0:
+        return "Unsupported protocol version"
+    if i == 1:
+        return "1 validation error for InitializeRequestParams\nprotocolVersion\n  Unsupported protocol version '2099-01-01' [type=value_error]"
+    if i == 2:
+        return "\nInvalid params:\n\n  unsupported PROTOCOL VERSION"
+    if i == 3:
+        return "Bad request. " * 20 + "The requested Protocol Version is not available."
+    return "protocol version"
+
+
 class _Ans:
     def __init__(self, kind, ans, code):
         self.kind, self.ans, self.code = kind, ans, code
@@ -69,7 +82,7 @@ def _answer(a, rid):
     if a.kind == A_ERROR:
         return JSONRPCMessage(jsonrpc="2.0", id=rid, error={"code": a.code, "message": "E"})
     if a.kind == A_ERROR_VERSION_TEXT:
-        return JSONRPCMessage(jsonrpc="2.0", id=rid, error={"code": -32602, "message": "Unsupported protocol version"})
+        return JSONRPCMessage(jsonrpc="2.0", id=rid, error={"code": -32602, "message": version_text(a.code)})
     raise HarnessError("answer kind")
 
 
